@@ -1289,7 +1289,7 @@ pub fn main(tier: Tier) -> i32 {
         .and_then(|s| s.parse().ok())
         .unwrap_or(match tier {
             Tier::Quick => 400,
-            Tier::Thorough => 20_000,
+            Tier::Thorough => 60_000,
         });
     let tally = match run_batch(&scratch, &golden, seed, n) {
         Ok(t) => t,
